@@ -1,4 +1,5 @@
 import Ekit.Props.C15
+import Ekit.Props.C15S
 open Ekit.Races
 #print axioms c15_disciplined_raceFree
 #print axioms c15_lock_orders
@@ -14,3 +15,9 @@ open Ekit.Races
 #print axioms c15_witness_plain_load_of_atomic_races
 #print axioms c15_witness_locked_reader_raceFree
 #print axioms c15_witness_fromTable_raceFree
+#print axioms c15_disciplined_ordered_min
+#print axioms c15_raceFree_any_hb
+#print axioms c15_raceFree_of_strong
+#print axioms c15_handoff_atomic_observed
+#print axioms c15_handoff_lock_min
+#print axioms c15_generous_hb_hides_a_race
